@@ -314,6 +314,14 @@ func c19Cached(c *mon.Ctx, r *mon.Rand) {
 					} else {
 						h.spec = tally.DurationBuckets(r.DurationSpec(4))
 					}
+					if r.Chance(1, 6) {
+						// a specification without bounds: a histogram like any other
+						if r.Bool() {
+							h.spec = tally.ValueBuckets{}
+						} else {
+							h.spec = tally.DurationBuckets{}
+						}
+					}
 					call := fmt.Sprintf("AllocateHistogram(%q,%v,%v)", name, tags, h.spec)
 					ops = append(ops, call)
 					h.h = m.AllocateHistogram(name, given, h.spec)
